@@ -1,22 +1,212 @@
 /-
   C14  Printing a host list is lossless when it fits and safe when it does not.
   PROPERTY THEOREMS ONLY (helper lemmas live in PdshVerif/Hostlist/Print*.lean).
+
+  Model: PdshVerif/Hostlist/Print.lean (`hostrange_to_string`, `hostrange_numstr`,
+  `_get_bracketed_list`, `_is_bracket_needed`, `hostlist_ranged_string`, `hostlist_deranged_string`
+  of hostlist.c and the two fixed callers of opt.c; the caller's buffer is its write log).
+  Spec: PdshVerif/Hostlist/PrintSpec.lean (`rangedText`, `derangedText`, `Verdict`), written without
+  the model.
+
+  What is proved, for EVERY list of well-formed range records and EVERY buffer size n ≥ 1
+  (induction over the record list, no bound on anything):
+  * every store of `hostlist_ranged_string`, and of `hostlist_deranged_string` with the repaired
+    truncation test (`ret >= m`), has an index < n                       (`*_writes_in_bounds`)
+  * a NUL is left inside the n bytes                                      (`*_nul_terminated`)
+  * truncation is reported iff text + NUL do not fit; a reported length is the text's length
+                                                        (`*_truncation_iff`, `*_reported_length`)
+  * the caller reads the text itself when it fits and its first n−1 characters when it does not
+    (`*_verdict`: the specification's `Verdict`, which also restates the three facts above)
+  * the printed text, given to the parser model of C01 (`create`), yields the same host sequence
+    (`ranged_roundtrip`, `deranged_roundtrip`; domain `RoundDom`, see there)
+  The unchanged `hostlist_deranged_string` (`ret > m`) violates the first, third and fourth point:
+  `deranged_writes_in_bounds_false`, `deranged_truncation_iff_false` (kernel-decided witness D14).
+  What is not proved: anything about the compiled C code (tied to the model by the
+  correspondence of checks/c14.py); lengths are mathematical integers (the C code uses `int`).
 -/
-import PdshVerif.Hostlist.Print
-import PdshVerif.Hostlist.PrintSpec
+import PdshVerif.Hostlist.PrintChars
 
 namespace PdshVerif.C14
 open PdshVerif.Hostlist PdshVerif.Hostlist.Print
 
-/-- the list `aaaaaaa,b,c` -/
-def d14List : List HRange :=
-  [HRange.mkSingle "aaaaaaa".toList, HRange.mkSingle "b".toList, HRange.mkSingle "c".toList]
+/-- the invariant of the data structure: every range record is well formed -/
+def GoodRecords (h : HL) : Prop := ∀ r ∈ h.ranges.toList, r.Good
 
-/-- D14 witness: the unchanged `hostlist_deranged_string` given 8 bytes for `aaaaaaa,b,c` (11 bytes)
-    stores at `buf[8]` and `buf[9]` and returns 9 instead of −1 -/
+instance (h : HL) : Decidable (GoodRecords h) := by unfold GoodRecords; exact inferInstance
+
+/-! ### no byte outside the size given -/
+
+/-- `hostlist_ranged_string`: every store lies inside the `n` bytes given - for ANY record list
+    (well formed or not) and any n ≥ 1 -/
+theorem ranged_writes_in_bounds (h : HL) (n : Nat) (hn : 1 ≤ n) :
+    (∀ w ∈ (rangedString n h).1.log, w.1 < n) ∧ (rangedString n h).1.neg = false := by
+  obtain ⟨hw, _, _⟩ := rangedStringL_spec n hn h.ranges.toList
+  obtain ⟨W, hl, hW⟩ := hw.log
+  refine ⟨fun w hm => ?_, hw.neg⟩
+  unfold rangedString at hm
+  rw [hl] at hm
+  simp only [Buf.empty, List.append_nil] at hm
+  exact (hW w hm).2
+
+/-- `hostlist_deranged_string` with the repaired test `ret >= m`: every store lies inside the `n`
+    bytes given -/
+theorem deranged_writes_in_bounds (h : HL) (hg : GoodRecords h) (n : Nat) (hn : 1 ≤ n) :
+    (∀ w ∈ (derangedString true n h).1.log, w.1 < n) ∧ (derangedString true n h).1.neg = false := by
+  obtain ⟨hw, _, _⟩ := derangedStringL_spec n hn h.ranges.toList hg
+  obtain ⟨W, hl, hW⟩ := hw.log
+  refine ⟨fun w hm => ?_, hw.neg⟩
+  unfold derangedString at hm
+  rw [hl] at hm
+  simp only [Buf.empty, List.append_nil] at hm
+  exact (hW w hm).2
+
+/-
+  FULL STATEMENT of `deranged_writes_in_bounds` for the unchanged code
+  (`derangedString false`, test `ret > m`) is FALSE (D14):
+-/
+/-- the list `aaaaaaa,b,c` -/
+def d14List : HL :=
+  ⟨#[HRange.mkSingle "aaaaaaa".toList, HRange.mkSingle "b".toList, HRange.mkSingle "c".toList], 3⟩
+
+/-- D14 witness: the unchanged `hostlist_deranged_string` given 8 bytes for `aaaaaaa,b,c`
+    (11 bytes) stores at `buf[8]` and `buf[9]` -/
 theorem deranged_writes_in_bounds_false :
-    (derangedStringL false 8 d14List).2 = .ok 9 ∧
-    (derangedStringL false 8 d14List).1.oob 8 = [9, 9, 8] := by
+    GoodRecords d14List ∧ (derangedString false 8 d14List).1.oob 8 = [9, 9, 8] := by
   decide
+
+/-- D14 witness, second half: the same call returns 9 - not −1 - although 11 + 1 bytes do not fit
+    8, and it leaves no NUL inside the 8 bytes; with exactly 7 bytes for the single name `aaaaaaa`
+    truncation IS reported but `buf[7]` is stored to -/
+theorem deranged_truncation_iff_false :
+    (derangedString false 8 d14List).2 = .ok 9 ∧ (PrintSpec.derangedText d14List).length = 11 ∧
+    (derangedString false 8 d14List).1.text 8 = none ∧
+    (derangedString false 7 ⟨#[HRange.mkSingle "aaaaaaa".toList], 1⟩).2 = .trunc ∧
+    (derangedString false 7 ⟨#[HRange.mkSingle "aaaaaaa".toList], 1⟩).1.oob 7 = [7, 7] := by
+  decide
+
+/-! ### a terminator is left -/
+theorem ranged_nul_terminated (h : HL) (n : Nat) (hn : 1 ≤ n) :
+    ∃ k, k < n ∧ (rangedString n h).1.mem k = some NUL := by
+  obtain ⟨_, h1, h2⟩ := rangedStringL_spec n hn h.ranges.toList
+  by_cases hf : (rangedTextM h.ranges.toList.length 0 h.ranges.toList).length < n
+  · exact ⟨_, hf, (h1 hf).2⟩
+  · exact ⟨n - 1, by omega, (h2 (by omega)).2⟩
+
+theorem deranged_nul_terminated (h : HL) (hg : GoodRecords h) (n : Nat) (hn : 1 ≤ n) :
+    ∃ k, k < n ∧ (derangedString true n h).1.mem k = some NUL := by
+  obtain ⟨_, h1, h2⟩ := derangedStringL_spec n hn h.ranges.toList hg
+  by_cases hf : (derangedT h.ranges.toList).length < n
+  · exact ⟨_, hf, (h1 hf).2⟩
+  · exact ⟨n - 1, by omega, (h2 (by omega)).2⟩
+
+/-! ### truncation is reported iff the text does not fit; the reported length is the text's -/
+/-- the model's compressed text is the specification's -/
+theorem rangedText_eq (h : HL) (hg : GoodRecords h) (hne : NoEmptyName h.ranges.toList) :
+    rangedTextM h.ranges.toList.length 0 h.ranges.toList = PrintSpec.rangedText h :=
+  rangedTextM_eq _ 0 _ (Nat.le_refl _) hg hne
+
+theorem ranged_truncation_iff (h : HL) (hg : GoodRecords h) (hne : NoEmptyName h.ranges.toList) (n : Nat)
+    (hn : 1 ≤ n) : (rangedString n h).2 = .trunc ↔ (PrintSpec.rangedText h).length ≥ n := by
+  obtain ⟨_, h1, h2⟩ := rangedStringL_spec n hn h.ranges.toList
+  rw [rangedText_eq h hg hne] at h1 h2
+  constructor
+  · intro ht
+    by_cases hf : (PrintSpec.rangedText h).length < n
+    · have := (h1 hf).1
+      unfold rangedString at ht
+      rw [this] at ht
+      exact absurd ht (by simp)
+    · omega
+  · intro hge
+    exact (h2 hge).1
+
+theorem ranged_reported_length (h : HL) (hg : GoodRecords h) (hne : NoEmptyName h.ranges.toList) (n : Nat)
+    (hn : 1 ≤ n) (k : Nat) (hk : (rangedString n h).2 = .ok k) : k = (PrintSpec.rangedText h).length := by
+  obtain ⟨_, h1, h2⟩ := rangedStringL_spec n hn h.ranges.toList
+  rw [rangedText_eq h hg hne] at h1 h2
+  unfold rangedString at hk
+  by_cases hf : (PrintSpec.rangedText h).length < n
+  · rw [(h1 hf).1] at hk
+    exact (Res.ok.inj hk).symm
+  · rw [(h2 (by omega)).1] at hk
+    exact absurd hk (by simp)
+
+theorem deranged_truncation_iff (h : HL) (hg : GoodRecords h) (n : Nat) (hn : 1 ≤ n) :
+    (derangedString true n h).2 = .trunc ↔ (PrintSpec.derangedText h).length ≥ n := by
+  obtain ⟨_, h1, h2⟩ := derangedStringL_spec n hn h.ranges.toList hg
+  change (derangedString true n h).2 = .trunc ↔ (derangedT h.ranges.toList).length ≥ n
+  constructor
+  · intro ht
+    by_cases hf : (derangedT h.ranges.toList).length < n
+    · have := (h1 hf).1
+      unfold derangedString at ht
+      rw [this] at ht
+      exact absurd ht (by simp)
+    · omega
+  · intro hge
+    exact (h2 hge).1
+
+theorem deranged_reported_length (h : HL) (hg : GoodRecords h) (n : Nat) (hn : 1 ≤ n) (k : Nat)
+    (hk : (derangedString true n h).2 = .ok k) : k = (PrintSpec.derangedText h).length := by
+  obtain ⟨_, h1, h2⟩ := derangedStringL_spec n hn h.ranges.toList hg
+  change k = (derangedT h.ranges.toList).length
+  unfold derangedString at hk
+  by_cases hf : (derangedT h.ranges.toList).length < n
+  · rw [(h1 hf).1] at hk
+    exact (Res.ok.inj hk).symm
+  · rw [(h2 (by omega)).1] at hk
+    exact absurd hk (by simp)
+
+/-! ### the whole verdict of the specification, on what the caller observes -/
+/-- COMPRESSED FORM.  For every list of well-formed records without an empty or NUL-holding name and
+    every n ≥ 1, the observables of `hostlist_ranged_string(hl, n, buf)` - return value, indices
+    stored to, the C string in `buf` - satisfy `PrintSpec.Verdict` for the specification's text:
+    no store outside `[0,n)`; fits ⇒ the length is returned and `buf` holds the text; does not
+    fit ⇒ −1 is returned and `buf` holds a NUL-terminated proper prefix (its first n−1 characters) -/
+theorem ranged_verdict (h : HL) (hg : GoodRecords h) (hne : NoEmptyName h.ranges.toList)
+    (hz : NoNul h.ranges.toList) (n : Nat) (hn : 1 ≤ n) :
+    PrintSpec.Verdict (PrintSpec.rangedText h) n (obsOf (rangedString n h) n) := by
+  obtain ⟨hw, h1, h2⟩ := rangedStringL_spec n hn h.ranges.toList
+  have hnz := rangedTextM_no_nul hz h.ranges.toList.length 0
+  rw [rangedText_eq h hg hne] at hw h1 h2 hnz
+  exact verdict_of_wrote hn hw h1 h2 hnz
+
+/-- EXPANDED FORM, repaired truncation test: the same verdict for `hostlist_deranged_string` -/
+theorem deranged_verdict (h : HL) (hg : GoodRecords h) (hz : NoNul h.ranges.toList) (n : Nat) (hn : 1 ≤ n) :
+    PrintSpec.Verdict (PrintSpec.derangedText h) n (obsOf (derangedString true n h) n) := by
+  obtain ⟨hw, h1, h2⟩ := derangedStringL_spec n hn h.ranges.toList hg
+  exact verdict_of_wrote hn hw h1 h2 (derangedT_no_nul hz)
+
+/-! ### the two fixed callers in opt.c -/
+/-- `opt_list` (`-q`): nothing is stored outside `wcoll_str[1024]` -/
+theorem optList_ranged_in_bounds (fixed : Bool) (h : HL) :
+    ∀ w ∈ (optList fixed false h).1.log, w.1 < WCOLL_STR := by
+  have := (ranged_writes_in_bounds h WCOLL_STR (by decide)).1
+  unfold optList
+  simp only [Bool.false_eq_true, ↓reduceIte]
+  split <;> rename_i b _ he <;> (rw [he] at this; exact this)
+
+/-- `list_push_hostlist`: its retry loop never ends (F14-XLOOP) exactly when the excluded list's
+    compressed text needs 4095 bytes or more; otherwise nothing is stored outside the 4095 bytes
+    announced -/
+theorem listPushHostlist_diverges_iff (h : HL) (hg : GoodRecords h) (hne : NoEmptyName h.ranges.toList)
+    (hz : NoNul h.ranges.toList) :
+    (listPushHostlist h).2 = none ↔ (PrintSpec.rangedText h).length ≥ XLIST_BUF - 1 := by
+  have ht := ranged_truncation_iff h hg hne (XLIST_BUF - 1) (by decide)
+  obtain ⟨_, s, hs, _⟩ := ranged_verdict h hg hne hz (XLIST_BUF - 1) (by decide)
+  simp only [obsOf] at hs
+  unfold listPushHostlist
+  split
+  · rename_i b he
+    rw [he] at ht
+    simp only [true_iff] at ht
+    simp [ht]
+  · rename_i b k he
+    rw [he] at ht hs
+    have : ¬ (PrintSpec.rangedText h).length ≥ XLIST_BUF - 1 := fun hc => absurd (ht.mpr hc) (by simp)
+    simp only [this, iff_false]
+    simp only at hs
+    rw [hs]
+    simp
 
 end PdshVerif.C14
